@@ -5,6 +5,7 @@ import (
 	"bufio"
 	"encoding/json"
 	"fmt"
+	"hash/fnv"
 	"net"
 	"net/http"
 	"strings"
@@ -131,6 +132,9 @@ func (w *world) observe(c fox.Context, wantPattern string, wantScope fox.Handler
 	}
 	if c.Header("X-Tok") != tok {
 		w.bad("Header(X-Tok) = %q", c.Header("X-Tok"))
+	}
+	if ip := c.RemoteIP(); ip == nil || ip.String() != w.remoteOf() {
+		w.bad("RemoteIP() = %v, the request comes from %s", ip, w.remoteOf())
 	}
 	wantQ := tok
 	if w.cur.noQuery {
@@ -393,7 +397,16 @@ func (w *world) req(method, host, path string) *http.Request {
 		r.URL.RawQuery = "q=" + w.cur.tok
 	}
 	r.Header.Set("X-Tok", w.cur.tok)
+	r.RemoteAddr = w.remoteOf() + ":1234"
 	return r
+}
+
+// remoteOf derives a remote address from the request's token, so that every request (inner ones too) has its own.
+func (w *world) remoteOf() string {
+	h := fnv.New32a()
+	h.Write([]byte(w.cur.tok))
+	v := h.Sum32()
+	return fmt.Sprintf("10.%d.%d.%d", v>>16&0xff, v>>8&0xff, v&0xff|1)
 }
 
 // issue performs one request of the given kind.
